@@ -512,11 +512,17 @@ fn make_case(s: &Script, rng: &mut StdRng) -> Option<Case> {
 	session_priv[31] |= 1;
 	let mut prng_seed = [0u8; 32];
 	rng.fill(&mut prng_seed);
-	let scid: Vec<u64> = (0..n).map(|_| match rng.gen_range(0..8) {
-		0 => rng.gen_range(1..256u64),
-		1 => u64::MAX - rng.gen_range(0..256u64),
-		_ => rng.gen::<u64>() | 1,
-	}).collect();
+	let mut scid: Vec<u64> = Vec::new();
+	while scid.len() < n {
+		let x = match rng.gen_range(0..8) {
+			0 => rng.gen_range(1..256u64),
+			1 => u64::MAX - rng.gen_range(0..256u64),
+			_ => rng.gen::<u64>() | 1,
+		};
+		if !scid.contains(&x) {
+			scid.push(x);
+		}
+	}
 	Some(Case {
 		n,
 		b,
@@ -1011,7 +1017,7 @@ fn random_script(rng: &mut StdRng) -> Script {
 		}
 		legs.push(Cls { a, c: cl });
 	}
-	let fin = if b == 0 && !legs.is_empty() {
+	let fin = if b <= 1 && !legs.is_empty() {
 		legs.last().unwrap().clone()
 	} else {
 		if rng.gen_range(0..6) == 0 && a > 1 {
